@@ -192,7 +192,7 @@ Definition named (o : op) : list obj :=
   | ChAppend o t | ChRemove o t | ChInsert o _ t | LnAppend _ o t | LnRemove _ o t => o :: somes [t]
   | ChMove o ts b a => o :: somes ts ++ somes [b] ++ somes [a]
   | ChSort o _ _ | ChReorder o _ | ChRemoveAll o _ | LnRemoveAll _ o _ | SetEst o _ | SetPrio o _ => [o]
-  | LstShift _ ts vs => ts ++ somes vs
+  | LstShift _ ts vs | LstSetChildren ts vs | LstSetLinks _ ts vs => ts ++ somes vs
   | LstSetParent ts p => ts ++ somes [p]
   | WbsRemove _ t => somes [t]
   | WbsRemoveAll _ _ => []
